@@ -46,7 +46,8 @@ def make(rng, cls):
     elif cls == "duplicates":
         base = rng.randn(k + int(rng.randint(0, 4)), d) * 3
         X = base[rng.randint(len(base), size=n)]
-        X[:len(base)] = base
+        mb = min(len(base), n)
+        X[:mb] = base[:mb]
     elif cls in ("lattice", "lattice-random-init"):
         side = int(rng.randint(2, 5))
         d = int(rng.randint(1, 3))
